@@ -194,6 +194,7 @@ func c18One(x *ctx, c refCase) bool {
 	defer os.RemoveAll(dir)
 	lc := LoadCase{Files: map[string]string{"cfg.yaml": a.yaml()}, Main: "cfg.yaml", Note: c.String()}
 	r := loadInProcess(dir, lc)
+	r.release()
 	x.res.Evaluations++
 	kinds := ""
 	for _, e := range c.Edits {
